@@ -250,6 +250,12 @@ pub fn pool() -> Vec<(String, Beatmap)> {
             v.push((format!("baseline-mode{mode}"), m));
         }
     }
+    // format versions below 5 and far above the current one: the encoder writes the version verbatim
+    for (mode, ver) in [(0u8, 4), (3u8, 3), (1u8, 128)] {
+        if let Ok(m) = rosu_map::from_str::<Beatmap>(&baseline(mode, ver).text()) {
+            v.push((format!("baseline-mode{mode}-v{ver}"), m));
+        }
+    }
     let wanted = [
         "sample-beatmap-osu.osu",
         "sample-beatmap-mania.osu",
@@ -311,7 +317,19 @@ pub fn check(name: &str, map: &Beatmap, edits: &[&Edit], acc: &mut Acc) {
         }
         let text = edited.encode_to_string().map_err(|e| format!("encode: {e}"))?;
         let mut back = rosu_map::from_str::<Beatmap>(&text).map_err(|e| format!("decode: {e}"))?;
-        Ok::<_, String>(compare(&mut edited, &mut back))
+        let mut diffs = compare(&mut edited, &mut back);
+        // the same map through a writer that accepts only a few bytes per call (a legitimate `Write`): same text
+        if edits.len() <= 1 {
+            let k = 1 + text.len() % 5;
+            let mut w = crate::env::FaultWriter::new(crate::env::WriteFault::Short(k), 0);
+            edited.encode(&mut w).map_err(|e| format!("encode into a writer accepting {k} bytes per call: {e}"))?;
+            if w.out != text.as_bytes() {
+                let at = w.out.iter().zip(text.as_bytes()).take_while(|(a, b)| a == b).count();
+                let ctx = String::from_utf8_lossy(&w.out[at.saturating_sub(20)..(at + 20).min(w.out.len())]).into_owned();
+                diffs.push(("through-short-writes".into(), format!("the text written to a writer accepting {k} bytes per call differs at byte {at} (…{ctx:?}…), so the edits are not carried by every writer")));
+            }
+        }
+        Ok::<_, String>(diffs)
     });
     let mode_edit = edits.iter().any(|e| matches!(e, Edit::Mode(_)));
     match r {
